@@ -437,6 +437,9 @@ mod tests {
 
     #[cfg(lumina_verif)]
     mod verif_native {
-        include!(concat!(env!("LUMINA_VERIF_DIR"), "/native/node/hx_server.rs"));
+        include!(concat!(
+            env!("LUMINA_VERIF_DIR"),
+            "/native/node/hx_server.rs"
+        ));
     }
 }
